@@ -253,9 +253,9 @@ func (w *world) sample() any {
 
 func (w *world) main() {
 	ch := simrt.Choose
-	// one configuration in twelve has more lanes than a machine word of either size has
-	// bits in its lower half (whatever is kept per lane in a bit set or a small table)
-	w.lanes = []int{1, 2, 3, 4, 6, 1, 2, 3, 4, 6, 5, 34}[ch("cfg.lanes", 12)]
+	// one configuration in twelve has 34 lanes, one in twenty-four 70: more than a machine
+	// word of either size has bits (whatever is kept per lane in a bit set or a small table)
+	w.lanes = []int{1, 2, 3, 4, 6, 1, 2, 3, 4, 6, 5, 34, 1, 2, 3, 4, 6, 1, 2, 3, 4, 6, 34, 70}[ch("cfg.lanes", 24)]
 	w.qsize = []int{0, 1, 2, 3, 5}[ch("cfg.qsize", 5)]
 	// 0 and negative: a push that cannot wait at all (time.After fires at once)
 	w.timeout = []time.Duration{time.Millisecond, 10 * time.Millisecond, time.Second, 0, -time.Second}[ch("cfg.timeout", 5)]
@@ -263,6 +263,23 @@ func (w *world) main() {
 		simrt.Probe("non_positive_push_timeout")
 	}
 	ctxKind := ch("cfg.ctx", 6) // 0,1 live; 2 cancelled mid-run; 3 deadline; 4 already cancelled; 5 expired deadline / dead parent
+	// a long history first (rare): thousands of trivial tasks through a single
+	// worker before anything else happens - whatever a worker does every so many
+	// tasks (re-spawn, reset, sample) happens here
+	longHistory := 0
+	switch h := ch("cfg.long_history", 3000); {
+	case h >= 2975 && h < 2999:
+		longHistory = 4200
+	case h == 2999:
+		longHistory = 66000
+	}
+	if longHistory > 0 && ctxKind <= 2 {
+		w.lanes = 1
+		w.timeout = time.Second
+		simrt.RaiseStepCap(40*longHistory + 100000)
+	} else {
+		longHistory = 0
+	}
 	producers := 1 + ch("cfg.producers", 3)
 	perProd := ch("cfg.tasks", 6)
 	policy := ch("cfg.policy", 4)
@@ -314,6 +331,25 @@ func (w *world) main() {
 
 	if waiterEarly {
 		w.startWaiter()
+	}
+
+	if longHistory > 0 && w.live() {
+		simrt.Probe("long_history")
+		var hist []*simTask
+		for i := 0; i < longHistory && w.live(); i++ {
+			t := w.newTask(kRet, nil)
+			hist = append(hist, t)
+			w.push(t, 0, "main-history")
+		}
+		simrt.Settle()
+		if w.live() {
+			for _, t := range hist {
+				if t.pushErr == nil && t.startCount != 1 {
+					w.violate("C06", "accepted-never-started", fmt.Sprintf("task %d of a history of %d trivial tasks on one lane was accepted and started %d times", t.id, longHistory, t.startCount), "accepted-never-started")
+					break
+				}
+			}
+		}
 	}
 
 	// phase B: pin workers with gated tasks, one per lane
